@@ -3,6 +3,7 @@ CONSTANTS
   Objects = {"o1","o2","o3"}
   Contents = {"shallow","nested","deeper","badscan","badrule","badvalue","usesT","typeT","orset","rich","typeU","blank","comment"}
   Ops = {"Check","Example","GetAST","OpenAPI"}
+  Registers = TRUE
   MaxCalls = 6
 INVARIANTS TypeOK Emit
 PROPERTIES FrozenRegsStable
